@@ -51,7 +51,7 @@ Definition am_add_zone (k z : N) (m : list (N * list N)) : list (N * list N) :=
     - [bypass]: an operator other than [=] gets all zones of the segment without the
       pruner being consulted;
     - [none_op_all]: the pruner answered [None] and the operator is one for which the
-      index says nothing ([!=], [IN]): all zones;
+      index says nothing ([!=], [IN], or — [none_noneq_all] — anything but [=]): all zones;
     - [none_code] for every other [None]: 0 = `return Vec::new()`, 1 = all zones,
       2 = all zones only while the segment is still in flight.
     [all_zones] stands for [collect_zones_for_scope]: every zone of the segment for the uid. *)
@@ -74,7 +74,16 @@ Definition bypass (st : strategy) (op : cmp_op) : bool :=
   | SXorPresence => zidx_sel_xf_noneq_bypass
   end.
 
+Definition none_noneq_all (st : strategy) : bool :=
+  match st with
+  | STemporal => zidx_sel_temporal_none_noneq_all
+  | SEnum => zidx_sel_enum_none_noneq_all
+  | SZoneXor => zidx_sel_zxf_none_noneq_all
+  | SXorPresence => zidx_sel_xf_none_noneq_all
+  end.
+
 Definition none_op_all (st : strategy) (op : cmp_op) : bool :=
+  (negb (cmp_op_eqb op OEq) && none_noneq_all st) ||
   match op with
   | ONeq =>
       match st with
